@@ -23,7 +23,13 @@ tgt = "/tmp/confirm-%s-target" % name
 env = dict(os.environ, CARGO_TARGET_DIR=tgt, CARGO_NET_OFFLINE="true")
 ran, ok = [], False
 try:
-    subprocess.run(["git", "-C", "/repo", "worktree", "add", "--detach", wt, "HEAD"], check=True, stdout=subprocess.DEVNULL, stderr=subprocess.DEVNULL)
+    for _try in range(20):
+        if subprocess.run(["git", "-C", "/repo", "worktree", "add", "--detach", wt, "HEAD"], stdout=subprocess.DEVNULL, stderr=subprocess.DEVNULL).returncode == 0:
+            break
+        subprocess.run(["git", "-C", "/repo", "worktree", "prune"], stdout=subprocess.DEVNULL, stderr=subprocess.DEVNULL)
+        time.sleep(3)
+    else:
+        sys.exit("could not create worktree")
     shutil.copyfile("/repo/Cargo.lock", os.path.join(wt, "Cargo.lock"))
     demo_dst = os.path.join(wt, meta["demo_path"])
     os.makedirs(os.path.dirname(demo_dst), exist_ok=True)
